@@ -13,9 +13,20 @@ import (
 
 func pbServCtrlSerialize(ctrl *MsgServerCtrl) *pbx.ServerMsg_Ctrl {
 	var params map[string][]byte
-	if ctrl.Params != nil {
-		if in, ok := ctrl.Params.(map[string]any); ok {
-			params = interfaceMapToByteMap(in)
+	// Params of server replies are built as one of these three map types (the same ones which are
+	// registered with gob for cluster transport).
+	switch in := ctrl.Params.(type) {
+	case map[string]any:
+		params = interfaceMapToByteMap(in)
+	case map[string]string:
+		params = make(map[string][]byte, len(in))
+		for key, val := range in {
+			params[key], _ = json.Marshal(val)
+		}
+	case map[string]int:
+		params = make(map[string][]byte, len(in))
+		for key, val := range in {
+			params[key], _ = json.Marshal(val)
 		}
 	}
 
